@@ -140,9 +140,9 @@ where
       x.1.call(());
     });
     self.unscribers.write().unwrap().clear();
-    if self.subscriber.is_subscribed() {
-      self.subscriber.unsubscribe();
-    }
+    // also after a terminal: releases the subscriber's remaining callbacks and
+    // cuts the subscriber -> teardown -> controller -> subscriber cycle
+    self.subscriber.unsubscribe();
     let on_finalize = &mut *self.on_finalize.write().unwrap();
     if let Some(f) = on_finalize {
       f.call(());
